@@ -200,6 +200,19 @@ def campaign(c):
                         c.violation('det:env-option', 'with %s the result depends on the environment (%s): %r vs %r' % (' '.join(flags), ENV2[k], seen[0][1][-120:].decode('utf-8', 'replace').replace(d, '<T>'), seen[k][1][-120:].decode('utf-8', 'replace').replace(d, '<T>')),
                                     dict(rep, flags=flags, env=ENV2[k]))
                 c.count('env-option-variants')
+                # ... and whatever characters the output path is spelled with (separators of option syntaxes, quotes, blanks, dashes,
+                # non-ASCII): same exit status, same file, same report apart from the path itself
+                base_run = None
+                for oname in ('plain', 'with,comma', 'a,b,c', 'with space', 'with=equals', 'semi;colon', 'co:lon', '-dash', '--ddash', "quo'te", 'dou"ble', 'star*', 'que?ry', 'br[ack]et', 'h#ash', 'per%cent', 'am&p', 'pi|pe', 'd\u00fcr'):
+                    od2 = os.path.join(d, 'o2', oname); os.makedirs(od2, exist_ok=True)
+                    for fname in ('out.pcap', oname + '.pcap'):
+                        outp = os.path.join(od2, fname)
+                        pr = subprocess.run([core.CLI, '-o', outp, ip_], capture_output=True, cwd=d, env=dict(PATH='/usr/bin:/bin'), timeout=120)
+                        got = (pr.returncode, pr.stdout.decode('utf-8', 'replace').replace(outp, '<OUT>'), open(outp, 'rb').read() if os.path.exists(outp) else None)
+                        if base_run is None: base_run = got
+                        elif got != base_run:
+                            c.violation('det:output-path', 'the result depends on how the output path is spelled (%r): exit %s vs %s, %r' % (os.path.join(oname, fname), got[0], base_run[0], (pr.stderr or pr.stdout)[-120:].decode('utf-8', 'replace').replace(d, '<T>')), dict(rep, outname=os.path.join(oname, fname)))
+                c.count('output-path-spellings')
             finally:
                 shutil.rmtree(d, ignore_errors=True)
         # text-level variants
